@@ -2,8 +2,8 @@
     Property theorems only; each is closed by a lemma proved in Lib/Path.v,
     Caco/NamesProofs.v, Caco/FileSetProofs.v or Caco/NamesGen.v.  All
     statements quantify over arbitrary byte strings. *)
-From Coq Require Import List NArith Bool String.
-From Verif Require Import Lib.Path Lib.Utf8 Caco.Names Caco.NamesProofs Caco.Match Caco.MatchProofs Caco.FileSet Caco.FileSetProofs
+From Coq Require Import List NArith Bool String Permutation.
+From Verif Require Import Lib.Path Lib.Utf8 Caco.Names Caco.NamesProofs Caco.Match Caco.MatchProofs Caco.FileSet Caco.FileSetProofs Caco.FileSetIgnore Caco.FileSetWalk Caco.MatchComplete
   Caco.NamesGenDefs Caco.NamesGen Gen.CacoConsts.
 Import ListNotations.
 Local Open Scope N_scope.
@@ -158,6 +158,94 @@ Theorem C12_dir_ignore_is_segmentwise : forall p i x,
 Proof. exact dir_ignore_is_segmentwise. Qed.
 Print Assumptions C12_dir_ignore_is_segmentwise.
 
+(** Ignore entries are independent of one another (Caco/FileSetIgnore.v): a
+    name is ignored exactly when one entry, taken ALONE, ignores it ... *)
+Theorem C12_ignored_entrywise : forall p r name,
+  ignored p r name = existsb (fun i => ignored p (only_ignore r i) name) (r_ignore r).
+Proof. exact ignored_entrywise. Qed.
+Print Assumptions C12_ignored_entrywise.
+
+(** ... so a directory ignore covers every name beneath its directory
+    whatever other entries the rule has (a directory whose name sorts between
+    it and the files beneath it - gen.old/ next to gen/, a-b/ next to a/ -, a
+    directory nested in it, the root) and wherever it stands among them; *)
+Theorem C12_dir_ignore_independent_of_other_ignores : forall p r i name,
+  In i (r_ignore r) -> ends_with_slash i = true ->
+  beneath name (make_rel_path p i) = true ->
+  ignored p r name = true.
+Proof. exact dir_ignore_independent_of_other_ignores. Qed.
+Print Assumptions C12_dir_ignore_independent_of_other_ignores.
+
+(** further entries never take a name out again, a name that no entry alone
+    ignores is not ignored, and the order of the entries does not matter. *)
+Theorem C12_ignored_monotone : forall p r r' name,
+  incl (r_ignore r) (r_ignore r') -> ignored p r name = true -> ignored p r' name = true.
+Proof. exact ignored_monotone. Qed.
+Print Assumptions C12_ignored_monotone.
+
+Theorem C12_not_ignored_iff : forall p r name,
+  ignored p r name = false <->
+  forall i, In i (r_ignore r) -> ignored p (only_ignore r i) name = false.
+Proof. exact not_ignored_iff. Qed.
+Print Assumptions C12_not_ignored_iff.
+
+Theorem C12_ignored_order_irrelevant : forall p r r' name,
+  Permutation (r_ignore r) (r_ignore r') -> ignored p r name = ignored p r' name.
+Proof. exact ignored_order_irrelevant. Qed.
+Print Assumptions C12_ignored_order_irrelevant.
+
+(** A lookup that sorts the ignored directories and tests only the
+    predecessor of the name loses gen/a.go under [gen/; gen.old/], a/x under
+    [a/; a-b/] and under the nested [a/; a/m/]. *)
+Theorem C12_bsearch_dir_ignore_refuted :
+  ignored_dirs_bsearch [] (ig_rule [bs "gen/"; bs "gen.old/"]) (bs "gen/a.go") = false /\
+  ignored [] (ig_rule [bs "gen/"; bs "gen.old/"]) (bs "gen/a.go") = true /\
+  ignored_dirs_bsearch [] (ig_rule [bs "gen/"]) (bs "gen/a.go") = true /\
+  ignored_dirs_bsearch [] (ig_rule [bs "a-b/"; bs "a/"]) (bs "a/x") = false /\
+  ignored [] (ig_rule [bs "a-b/"; bs "a/"]) (bs "a/x") = true /\
+  ignored_dirs_bsearch [] (ig_rule [bs "a/"; bs "a/m/"]) (bs "a/x") = false /\
+  ignored_dirs_bsearch [] (ig_rule [bs "a/"; bs "a/m/"]) (bs "a/b") = true /\
+  ignored [] (ig_rule [bs "a/"; bs "a/m/"]) (bs "a/x") = true /\
+  ignored (bs "pkg") (ig_rule [bs "gen.old/"; bs "gen/"]) (bs "pkg/gen/a.go") = true /\
+  ignored (bs "pkg") (ig_rule [bs "gen.old/"; bs "gen/"]) (bs "pkg/gen.old/a.go") = true /\
+  ignored (bs "pkg") (ig_rule [bs "gen.old/"; bs "gen/"]) (bs "pkg/generic/a.go") = false.
+Proof. exact bsearch_dir_ignore_refuted. Qed.
+Print Assumptions C12_bsearch_dir_ignore_refuted.
+
+(** The recursive listing, entry by entry (Caco/FileSetWalk.v): listed are
+    the entries that are no real directories, lie beneath the root, are reached
+    through real directories none of which is named like a skipped directory,
+    and whose own base name is none of the skipped file names. *)
+Theorem C12_recursive_listing_member : forall x sb tree R l f,
+  root_walked x sb tree R -> list_all x sb tree R = Some l ->
+  (In f l <-> exists e, In e tree /\ t_path e = f /\ listed x tree R e = true).
+Proof. exact list_all_member. Qed.
+Print Assumptions C12_recursive_listing_member.
+
+(** A non-directory entry never prunes its siblings: a regular file or a
+    symbolic link of ANY name (".git" - the gitdir pointer file of worktrees
+    and submodules -, COPYING, tags, ...) under a path the tree did not have
+    changes the listing by at most its own name, wherever it sorts. *)
+Theorem C12_non_directory_never_prunes : forall x sb tree R e' l l' f,
+  is_real_dir (t_kind e') = false -> find_entry tree (t_path e') = None ->
+  root_walked x sb tree R ->
+  list_all x sb tree R = Some l -> list_all x sb (e' :: tree) R = Some l' ->
+  f <> t_path e' ->
+  (In f l' <-> In f l).
+Proof. exact non_directory_never_prunes. Qed.
+Print Assumptions C12_non_directory_never_prunes.
+
+(** A walk that prunes at any entry named ".git", directory or not, keeps
+    only what sorts before it. *)
+Theorem C12_git_file_prunes_siblings_refuted :
+  list_all w_excl (bs "src") w_tree [] =
+    Some [bs "-x"; bs ".git"; bs "a"; bs "d/a"; bs "d/.git"; bs "d/-x"; bs "COPYING/x"] /\
+  list_all_pruning w_excl (bs "src") w_tree [] = Some [bs "-x"; bs ".git"] /\
+  list_all w_excl (bs "src") w_tree (bs "d") = Some [bs "d/a"; bs "d/.git"; bs "d/-x"] /\
+  list_all_pruning w_excl (bs "src") w_tree (bs "d") = Some [bs "d/.git"; bs "d/-x"].
+Proof. exact git_file_prunes_siblings_refuted. Qed.
+Print Assumptions C12_git_file_prunes_siblings_refuted.
+
 (** ** Patterns: Go's path.Match in full *)
 
 (** Matching is total (the recursion budget of the model always suffices)
@@ -184,10 +272,51 @@ Theorem C12_match_sound : forall pat name chunks,
 Proof. exact go_match_sound. Qed.
 Print Assumptions C12_match_sound.
 
-(** The converse (the greedy chunk loop finds every declarative match) is
-    not proved; it is exercised by the exhaustive small-pattern stream. *)
+(** The converse - the greedy chunk loop finds every declarative match - for
+    patterns without character classes on names whose runes are single bytes,
+    and for patterns of literals and '*' on any name (Caco/MatchComplete.v): a
+    chunk of literals and '?' that fits at the first offset and again behind a
+    gap free of '/' cannot contain a '/', so the next '*' can swallow the
+    difference. *)
+Theorem C12_match_complete_partial : forall pat name chunks,
+  parse_pattern pat = POk chunks -> chunks_plain chunks = true ->
+  (chunks_lits chunks = true \/ narrow name = true) ->
+  dmatch chunks name = true -> go_match pat name = MTrue.
+Proof. exact go_match_complete_partial. Qed.
+Print Assumptions C12_match_complete_partial.
+
+(** ... so for these [Match] decides the declarative reading. *)
+Theorem C12_match_exact_partial : forall pat name chunks,
+  parse_pattern pat = POk chunks -> chunks_plain chunks = true ->
+  (chunks_lits chunks = true \/ narrow name = true) ->
+  (go_match pat name = MTrue <-> dmatch chunks name = true).
+Proof. exact go_match_exact_partial. Qed.
+Print Assumptions C12_match_exact_partial.
+
+(** The full statement is FALSE for Go's matcher, in two ways (both are what
+    [path.Match] of the toolchain does; corpus cases of the match stream): a
+    character class matches '/', which no later '*' can swallow, and '*' skips
+    bytes where '?' takes runes. *)
 Definition stmt_match_complete : Prop := forall pat name chunks,
   parse_pattern pat = POk chunks -> dmatch chunks name = true -> go_match pat name = MTrue.
+
+Theorem C12_match_class_incomplete_refuted :
+  let pat := bs "*[^a]*b" in let name := bs "x/b" in
+  exists chunks, parse_pattern pat = POk chunks /\ dmatch chunks name = true /\
+                 go_match pat name = MFalse.
+Proof. exact match_class_incomplete_refuted. Qed.
+Print Assumptions C12_match_class_incomplete_refuted.
+
+Theorem C12_match_wide_rune_incomplete_refuted :
+  let pat := bs "*??*X" in let name := [240; 144; 128; 128; 88]%N in
+  exists chunks, parse_pattern pat = POk chunks /\ dmatch chunks name = true /\
+                 go_match pat name = MFalse /\ chunks_plain chunks = true.
+Proof. exact match_wide_rune_incomplete_refuted. Qed.
+Print Assumptions C12_match_wide_rune_incomplete_refuted.
+
+Theorem C12_match_complete_refuted : ~ stmt_match_complete.
+Proof. exact stmt_match_complete_refuted. Qed.
+Print Assumptions C12_match_complete_refuted.
 
 (** '*' and '?' never match across a directory separator: a matched name has
     exactly the literal '/'s of the pattern, plus at most one per character
